@@ -450,7 +450,32 @@ def r_removed_excluded(ctx):
             ctx.violation('%s:incomplete-membership-effects-%s' % (mut.qualname, '+'.join(sorted(missing))), mut.loc(),
                           'a successful membership change performs %s but not %s' % (sorted(have), sorted(missing)), instance='membership effects complete')
     ctx.require(seen >= 2, 'add/remove arms returning True not found')
-    ctx.expect_min(2)
+    # the voter set never holds the node itself and an existing member is not "added" again (its indices would be reset):
+    # at the add, `node != selfNode` and `node not in voters` are established; at the discard, `node != selfNode`
+    fres = U.full_run(ctx, mut)
+    for n in cfg.nodes:
+        if n.kind != 'stmt' or n.ast is None:
+            continue
+        for c in [x for x in ast.walk(n.ast) if isinstance(x, ast.Call) and isinstance(x.func, ast.Attribute) and P.self_attr(x.func.value, sn) == R.voters and x.args]:
+            if c.func.attr not in ('add', 'discard', 'remove') or not fres.reached(n.id):
+                continue
+            arg = unparse(c.args[0])
+            inst = '`%s`: the node is not this node itself%s' % (unparse(c), ' and not a member yet' if c.func.attr == 'add' else '')
+            g_self = ex.tb.literal(U.parse_expr('%s == self.%s' % (arg, R.selfNode)), False)
+            ok1 = g_self is not None and all(oracle.entails(fs, g_self) for fs in fres.facts_at(n.id))
+            ok2 = True
+            if c.func.attr == 'add':
+                g_in = ex.tb.literal(U.parse_expr('%s in self.%s' % (arg, R.voters)), False)
+                ok2 = g_in is not None and all(oracle.entails(fs, g_in) for fs in fres.facts_at(n.id))
+            ctx.tick()
+            if ok1 and ok2:
+                ctx.ok(inst, mut.loc(c), 'entailed on every path')
+            else:
+                ctx.violation('%s:%s' % (mut.qualname, 'voter-set-may-hold-self' if not ok1 else 'existing-member-added-again'), mut.loc(c),
+                              ('`%s` is reached on a path where `%s != self.%s` is not established: a node that processes the entry about itself puts itself into its own voter set and '
+                               'computes every majority over a set that counts it twice' % (unparse(c), arg, R.selfNode)) if not ok1 else
+                              ('`%s` is reached for a node that may already be a member: its next / match index are reset' % unparse(c)), instance=inst)
+    ctx.expect_min(4)
 
 
 def dead_guards(P):
